@@ -1,6 +1,7 @@
 package task
 
 import (
+	"fmt"
 	"slices"
 
 	"github.com/go-task/task/v3/errors"
@@ -49,8 +50,13 @@ func (e *Executor) areTaskRequiredVarsAllowedValuesSet(t *ast.Task) error {
 		}
 		varValue, _ := t.Vars.Get(requiredVar.Name)
 
+		// The enum lists text: a value of another type (a YAML number or
+		// boolean) is compared by its textual form
 		value, isString := varValue.Value.(string)
-		if isString && requiredVar.Enum != nil && !slices.Contains(requiredVar.Enum, value) {
+		if !isString {
+			value = fmt.Sprint(varValue.Value)
+		}
+		if requiredVar.Enum != nil && !slices.Contains(requiredVar.Enum, value) {
 			notAllowedValuesVars = append(notAllowedValuesVars, errors.NotAllowedVar{
 				Value: value,
 				Enum:  requiredVar.Enum,
